@@ -1,12 +1,22 @@
 import KdVerif.Model.ContainerV2
+import KdVerif.Model.ContainerV3
 import KdVerif.Model.TracePipeline
 import KdVerif.Model.Format
 import KdVerif.Gen.Consts
 /-
-  The layers composed: bytes of a version-2 dump -> `KdBufParser.parse` (Model/ContainerV2) -> event filter,
-  `TracesParser`, post-filters (Model/TracePipeline) -> `_format_trace` (Model/Format) = the lines
-  `PyKdebugParser.formatted_traces(BytesIO(file), codes)` yields (colour off).  No new logic: only the glue between
-  the layer models, so that the tie to the code also covers the glue of the real pipeline.
+  The layers composed: bytes of a version-2 or version-3 dump -> `KdBufParser.parse` (Model/ContainerV2,
+  Model/ContainerV3) -> event filter, `TracesParser`, post-filters (Model/TracePipeline) -> `_format_trace`
+  (Model/Format) = the lines `PyKdebugParser.formatted_traces(BytesIO(file), codes)` yields (colour off).  No new logic:
+  only the glue between the layer models, so that the tie to the code also covers the glue of the real pipeline.
+
+  Version 3 (`parse_v3` is a generator, so nothing of it runs before the first `next`): header and thread-map chunk are
+  read when the trace layer asks for the first event — an exception there ends the request without a line; then
+  `set_thread_map`; the records of all chunks in file order; `kevents` drops the log records
+  (`not isinstance(e, OsLogEvent)`), but to find out that no event follows the last record the filter keeps advancing
+  the container generator through the additional-data blocks and the log loop — an exception raised there (undecodable
+  property list, missing key, unknown string id) surfaces after the last line; the tables are extended by log records
+  only then, when every trace has been yielded and formatted.  `plist` is `plistlib.loads` as far as the container
+  parser looks at the result (Model/ContainerV3); the version-2 branch ignores it.
 -/
 namespace KdVerif.EndToEnd
 open KdVerif.Trace KdVerif.Filters
@@ -20,9 +30,16 @@ def utf8 (bs : Bytes) : String :=
 
 def threadMapOf (tm : List ThreadEntry) : Declared.ThreadMap := tm.map fun e => (e.tid, e.pid, utf8 e.name)
 
-/-- The version-2 dump as the trace layer sees it, and the exception the container reader ends with, if any
-    (raised after the last complete record was delivered). `none`: not a version-2 dump / unreadable header. -/
-def dumpOf (file : Bytes) : Except PyErr (TracePipeline.Dump × Option PyErr) :=
+/-- The state of a `KdBufParser` that `kevents` has just constructed, as far as the composition looks at it (the two
+    shared tables are cleared by `set_thread_map` before the first event; the events and the final exception do not
+    depend on it: `Proofs/EndToEnd.dumpOf_is_parse`). -/
+def freshParser : PState := ⟨Tables.empty, {}⟩
+
+/-- The dump as the trace layer sees it, and the exception the container reader ends with, if any (raised after the
+    last complete record was delivered — for a version-3 dump possibly in the blocks behind the last chunk).
+    `.error`: neither magic (`KeyError` of `self.versions[version]`) / unreadable header or thread-map chunk (raised at
+    the first `next`, before any event). -/
+def dumpOf (plist : Bytes → Option PView) (file : Bytes) : Except PyErr (TracePipeline.Dump × Option PyErr) :=
   let p := (Reader.ofBytes file).read Gen.Consts.RAW_VERSION_SIZE
   if p.1 = Gen.Consts.RAW_VERSION2_BYTES then
     match headerV2 p.2 with
@@ -30,7 +47,20 @@ def dumpOf (file : Bytes) : Except PyErr (TracePipeline.Dump × Option PyErr) :=
     | (.ok h, _) =>
       let run := parseV2 decodeRecord Tables.empty p.2
       .ok ({ threadMap := threadMapOf h.threadmap, events := run.events }, run.err)
+  else if p.1 = Gen.Consts.RAW_VERSION3_BYTES then
+    match headerV3 plist p.2 with
+    | (.error e, _) => .error e
+    | (.ok _, r1) =>
+      match threadmapV3 r1 with
+      | (.error e, _) => .error e
+      | (.ok tm, _) =>
+        -- all chunks' records, then (dropped by `kevents`) the log records; `run.err` may come from the blocks
+        let run := parseV3 plist decodeRecord freshParser p.2
+        .ok ({ threadMap := threadMapOf tm, events := run.events }, run.err)
   else .error .keyError
+
+/-- no payload loads: enough for version-2 dumps, which carry no property list. -/
+def noPlist : Bytes → Option PView := fun _ => none
 
 def fmtTables (t : Tabs) : Format.Tables :=
   { threadsPids := t.threadsPids.map fun (k, v) => (k, (v : Int)),
@@ -49,8 +79,9 @@ def formatAll (sh : Format.Show) : List (TraceOut × Tabs) → List String × Op
       (line :: ls, err)
 
 /-- `list(parser.formatted_traces(BytesIO(file), codes))` up to the first exception. -/
-def formattedTraces (env : Env) (obj : TracePipeline.Obj) (sh : Format.Show) (file : Bytes) : List String × Option PyErr :=
-  match dumpOf file with
+def formattedTraces (env : Env) (obj : TracePipeline.Obj) (sh : Format.Show) (plist : Bytes → Option PView)
+    (file : Bytes) : List String × Option PyErr :=
+  match dumpOf plist file with
   | .error e => ([], some e)
   | .ok (d, cerr) =>
     let res := (TracePipeline.traces env obj d).1
